@@ -9,7 +9,12 @@
 //!                   no later than the first event the lane sent after the consumer was owed events
 //!                   (receipt of `linked` without SYNC, of `synced` with SYNC) and, for a consumer
 //!                   still attached at the quiescent point, running to the last event;
-//!  * unlinked     – delivered (then the channel closed) when the link closes, not before.
+//!  * unlinked     – delivered (then the channel closed) when the link closes, not before. The link
+//!                   closes by the end action of the case (lane `unlinked`, socket dropped, stop
+//!                   trigger), by a lane-side fault of the script (the lane closes its writer: the
+//!                   runtime's input ends; the lane drops its reader: the runtime's output fails, which
+//!                   the write task can only notice when it writes), or because the runtime stops after
+//!                   `empty_timeout` without consumers - which it must not do while one is attached.
 //! Socket side:
 //!  * per consumer the commands that arrive are an in-order subsequence of what it sent (value: at
 //!    all; map: per key and relative to its clears), nothing arrives that was not sent;
@@ -132,13 +137,25 @@ pub fn witness(cfg: &Config, script: &[Step], obs: &Obs) -> Json {
         };
         lines.push((s.t0, format!("lane -> {k}{}", if s.t1.is_some() { "" } else { " (not completely written)" })));
     }
-    lines.push((obs.q, "---- quiescent point ----".to_string()));
+    if let Some(t) = obs.lane.reader_dropped {
+        lines.push((t, "lane: DROPS ITS READER of the runtime's output (its writer stays open)".to_string()));
+    }
+    if let Some(t) = obs.lane.writer_closed {
+        lines.push((t, "lane: CLOSES ITS WRITER (keeps reading the runtime's output)".to_string()));
+    }
+    if cfg.faults {
+        for (t, ms) in &obs.quiet {
+            lines.push((*t, format!("-- quiet, virtual time {ms} ms --")));
+        }
+    }
+    lines.push((obs.q, format!("---- quiescent point (virtual time {} ms, runtime {}) ----", obs.ms_at_q, if obs.runtime_alive_at_q { "running" } else { "terminated" })));
     lines.sort();
     let lines: Vec<String> = lines.into_iter().take(400).map(|(_, s)| s).collect();
     json!({
         "lane": cfg.kind.name(),
         "initial_state": cfg.init.show(),
         "end": cfg.end.name(),
+        "empty_timeout_ms": cfg.timeout_ms,
         "channels": {"socket_out": cfg.cap_sock_out, "socket_in": cfg.cap_sock_in,
                      "consumers": cfg.consumers.iter().map(|c| json!([c.cap_note, c.cap_cmd])).collect::<Vec<_>>()},
         "script": script.iter().map(|s| format!("{s:?}")).collect::<Vec<_>>(),
@@ -187,6 +204,38 @@ fn is_subsequence(hay: &[&Ev], needle: &[&Ev]) -> bool {
     i == needle.len()
 }
 
+/// The runtime's output half has *provably* failed and the write task has noticed, whatever the
+/// schedule: the lane dropped its reader (every write / flush of the runtime fails from then on, none
+/// can stay pending), and afterwards two complete commands were written by consumers that the
+/// runtime had already served a frame (so both of its tasks know them by the next quiet point), with
+/// a quiet point after each. The first command is taken by an idle write task, buffered, and its
+/// flush fails; the task is allowed to look at that result only when its next input arrives, which
+/// the second command is. (Without the quiet point in between, the second command can be taken
+/// before the flush is started, and the failure goes unnoticed until a third.)
+fn output_failure_proven(obs: &Obs) -> bool {
+    let Some(td) = obs.lane.reader_dropped else { return false };
+    let mut cmds: Vec<(u64, u64)> = vec![];
+    for co in &obs.cons {
+        if !co.attach_accepted {
+            continue;
+        }
+        let Some(tf) = co.frames.first().map(|f| f.0) else { continue };
+        for r in &co.cmds {
+            if let Some(t1) = r.t1 {
+                if r.t0 > td && r.t0 > tf {
+                    cmds.push((r.t0, t1));
+                }
+            }
+        }
+    }
+    cmds.sort();
+    let Some((_, x1)) = cmds.first() else { return false };
+    // a quiet point after the first command was completely written, and a later command that was
+    // completely written before the quiescent point
+    let Some(tq) = obs.quiet.iter().map(|x| x.0).find(|t| t > x1) else { return false };
+    cmds.iter().any(|(y0, y1)| *y0 > tq && *y1 < obs.q)
+}
+
 pub fn check(cfg: &Config, script: &[Step], obs: &Obs, out: &mut dyn Sink) -> Summary {
     let cx = Ctx { cfg, script, obs };
     let mut sum = Summary::default();
@@ -209,6 +258,49 @@ pub fn check(cfg: &Config, script: &[Step], obs: &Obs, out: &mut dyn Sink) -> Su
     let linked_done = obs.lane.sent.iter().any(|s| s.kind == SentKind::Linked && s.t1.is_some());
     // Everything the lane was asked to do is done and delivered as far as it can be.
     let settled = obs.runtime_alive_at_q && obs.lane_idle_at_q && obs.stuck.is_empty();
+
+    // ---- the link closes before the quiescent point (lane-side faults, inactivity) -------------------
+    let t_drop = obs.lane.reader_dropped;
+    let t_wclose = obs.lane.writer_closed;
+    let output_failed = output_failure_proven(obs);
+    // At the quiescent point every brake is released and everything is drained: an input that has
+    // ended has been seen by the read task, an output failure as above by the write task.
+    let proven_closed = t_wclose.is_some() || output_failed;
+    let early_cause = if t_wclose.is_some() {
+        "input-closed"
+    } else if t_drop.is_some() {
+        "output-failed"
+    } else if obs.ms_at_q >= cfg.timeout_ms {
+        "inactivity"
+    } else {
+        "unknown"
+    };
+    if t_drop.is_some() {
+        out.count("fault/lane-dropped-its-reader");
+        if output_failed {
+            out.count("fault/output-failure-proven-by-two-separated-commands");
+        }
+        if !obs.runtime_alive_at_q && t_wclose.is_none() {
+            out.count("fault/runtime-stopped-after-output-only-failure");
+        }
+    }
+    if t_wclose.is_some() {
+        out.count("fault/lane-closed-its-writer");
+    }
+    if !obs.runtime_alive_at_q && t_drop.is_none() && t_wclose.is_none() && obs.ms_at_q >= cfg.timeout_ms {
+        out.count("inactivity/runtime-stopped-by-inactivity");
+    }
+    if proven_closed && obs.runtime_alive_at_q && obs.runtime_panic.is_none() {
+        cx.violate(
+            out,
+            format!("runtime-not-stopped/{lane}/{early_cause}"),
+            format!(
+                "the link is closed ({early_cause}{}), every brake is released and everything is drained, but the runtime task is still running",
+                if t_wclose.is_none() { ": the lane dropped its reader and two commands were written afterwards with a quiet point after each" } else { "" }
+            ),
+            Json::Null,
+        );
+    }
 
     if let Some(msg) = &obs.runtime_panic {
         cx.violate(out, format!("runtime-panic/{lane}/{}", common::sanitize_sig(msg)), format!("the downlink runtime task panicked: {msg}"), Json::Null);
@@ -308,12 +400,19 @@ pub fn check(cfg: &Config, script: &[Step], obs: &Obs, out: &mut dyn Sink) -> Su
                 json!({"consumer": c, "joined": late_s}),
             );
         }
-        if cc.sync && here_at_q && i_linked.is_some() && i_synced.is_none() {
+        // (a lane that dropped its reader may never have seen the sync request)
+        if cc.sync && here_at_q && i_linked.is_some() && i_synced.is_none() && t_drop.is_none() {
             // Two different ways to get here are told apart by what the lane saw: a sync request
             // after the attachment whose answer went out (the answer was consumed before the read
             // task registered the consumer), or no sync request at all.
             let answered = obs.lane.syncs.iter().any(|(a, b)| *a > t_att && b.is_some());
-            let cause = if answered {
+            // A third way: the request arrived at the lane after the consumer had received `linked`
+            // (the read task knew the consumer before the answer existed) and was answered.
+            let t_linked = i_linked.map(|i| co.frames[i].0).unwrap_or(u64::MAX);
+            let answered_while_registered = obs.lane.syncs.iter().any(|(a, b)| *a > t_linked && b.is_some());
+            let cause = if answered_while_registered {
+                "answer-dropped-while-registered".to_string()
+            } else if answered {
                 "answer-consumed-before-registration".to_string()
             } else {
                 format!("sync-never-requested/{}", if co.writer_end.is_some() { "writer-closed" } else { "writer-open" })
@@ -456,14 +555,70 @@ pub fn check(cfg: &Config, script: &[Step], obs: &Obs, out: &mut dyn Sink) -> Su
         // Nothing closes the link before the quiescent point (the lane does not unlink, the socket
         // stays open, the stop trigger is not fired, and the scripts are far shorter in virtual time
         // than the runtime's `empty_timeout`).
+        // In the `faults-*` parts the link can close earlier: after a lane-side fault, or because the
+        // runtime stopped for want of consumers once `empty_timeout` of virtual time has passed. The
+        // latter can legitimately hit a consumer that arrives while the stop is under way: it is
+        // served `linked` (if the link is up) and `unlinked` by the same turn of the read task. Two or
+        // more frames before `unlinked` show that a later turn served the consumer: the read task
+        // had it on its lists with its vote rescinded, and only this consumer going away (its reader
+        // is still there: it received `unlinked`) lets the read task vote again.
         if let Some(i) = i_unlinked {
             if i < co.frames_at_q {
+                let t_unl = co.frames[i].0;
+                let fault_before = t_drop.map_or(false, |t| t < t_unl) || t_wclose.map_or(false, |t| t < t_unl);
+                let ms_unl = obs.quiet.iter().find(|x| x.0 > t_unl).map_or(obs.ms_at_q, |x| x.1);
+                if fault_before {
+                    out.count("fault/sessions-unlinked-after-a-lane-fault");
+                } else if ms_unl >= cfg.timeout_ms {
+                    if i >= 2 {
+                        cx.violate(
+                            out,
+                            format!("stopped-while-consumer-attached/{lane}"),
+                            format!("consumer {c} was attached and served ({i} frames), nothing closed the link, and yet the runtime stopped (inactivity) and told it `unlinked`"),
+                            json!({"consumer": c, "frames_before_unlinked": i}),
+                        );
+                    } else {
+                        out.count("inactivity/unlinked-on-arrival-at-a-stopping-runtime");
+                    }
+                } else {
+                    cx.violate(
+                        out,
+                        format!("unlinked-while-link-open/{lane}"),
+                        format!("consumer {c} was told `unlinked` although the link was not closed"),
+                        json!({"consumer": c}),
+                    );
+                }
+            }
+        }
+        // The link closed before the quiescent point (the runtime task has terminated, or it provably
+        // has to): a consumer the runtime had served (so: on the read task's lists) and that is still
+        // listening must have been told `unlinked`, and its channel closed.
+        let harness_dropped = matches!(co.end, Some(ReaderEnd::Dropped(_)) | Some(ReaderEnd::DecodeError(..)));
+        if (proven_closed || !obs.runtime_alive_at_q) && obs.runtime_panic.is_none() && co.frames_at_q >= 1 && !harness_dropped {
+            let closed_at_q = matches!(co.end, Some(ReaderEnd::Closed(t)) if t < obs.q);
+            let last_is_unlinked = co.frames[..co.frames_at_q].last().map_or(false, |f| f.1 == Note::Unlinked);
+            if !closed_at_q || !last_is_unlinked {
+                let keep = if cc.keep { "keep-linked" } else { "no-keep-linked" };
                 cx.violate(
                     out,
-                    format!("unlinked-while-link-open/{lane}"),
-                    format!("consumer {c} was told `unlinked` although the link was not closed"),
-                    json!({"consumer": c}),
+                    format!("unlinked-missing/{lane}/{early_cause}/{keep}"),
+                    format!(
+                        "consumer {c} was attached (and served) when the link closed ({early_cause}); everything is drained but its session did not end with `unlinked` and a closed channel"
+                    ),
+                    json!({"consumer": c, "last_is_unlinked": last_is_unlinked, "channel_closed": closed_at_q, "runtime_terminated": !obs.runtime_alive_at_q}),
                 );
+            } else {
+                out.count(&format!("sessions-closed-with-unlinked-before-the-end-action/{early_cause}"));
+            }
+        }
+        if co.idle_ms_before_attach.map_or(false, |ms| ms >= cfg.timeout_ms) {
+            out.count("inactivity/attach-after-nobody-listened-for-longer-than-the-timeout");
+            if i_linked.is_some() {
+                // (the runtime survived the period: one of its tasks had not voted to stop)
+                out.count("inactivity/late-consumer-linked-after-such-a-period");
+                if co.frames.iter().any(|f| matches!(f.1, Note::Event(_))) {
+                    out.count("inactivity/late-consumer-received-events-after-such-a-period");
+                }
             }
         }
         if closing && co.alive_at_q && obs.runtime_alive_at_q {
@@ -496,7 +651,8 @@ pub fn check(cfg: &Config, script: &[Step], obs: &Obs, out: &mut dyn Sink) -> Su
         out.count("runtime-stopped-after-all-consumers-left");
     }
 
-    check_socket(&cx, out, settled);
+    // (a lane that dropped its reader sees no further commands: nothing can be said about arrivals)
+    check_socket(&cx, out, settled && t_drop.is_none());
     sum
 }
 
@@ -521,7 +677,13 @@ fn check_socket(cx: &Ctx<'_>, out: &mut dyn Sink, settled: bool) {
         }
     }
     if let Some((_, e)) = &obs.lane.reader_end {
-        if e != "closed" {
+        // A runtime that terminates before the quiescent point (the link closed early, `faults-*`
+        // parts) may do so with a request half-written into a socket the lane was not reading: the
+        // stream then ends inside its last frame, which is not a corruption.
+        let truncated_at_stop = !obs.runtime_alive_at_q && e.contains("bytes remaining on stream");
+        if truncated_at_stop {
+            out.count("socket/truncated-last-request-at-runtime-stop");
+        } else if e != "closed" {
             cx.violate(out, format!("socket/{lane}/request-stream-corrupt"), format!("the request byte stream is not a frame sequence: {e}"), Json::Null);
             return;
         }
